@@ -29,7 +29,7 @@ THOROUGH_SHAPES = [(2, 3, None, "full"), (3, 1, None, "full"), (3, 2, None, "ful
 
 def describe():
     return {
-        "functions": ["kmer_heuristic.py:kmer_chunks/minimize_kmer_search_list/remove_redundant_kmers/create_back_overlap_searchsets/create_positions_and_kmers",
+        "functions": ["_kmer_finder.pyx:KmerFinder.__reduce__", "kmer_heuristic.py:kmer_chunks/minimize_kmer_search_list/remove_redundant_kmers/create_back_overlap_searchsets/create_positions_and_kmers",
                       "_kmer_finder.pyx:KmerFinder.__cinit__/kmers_present", "_kmer_finder.pyx:populate_needle_mask/set_masks/shift_and_multiple_is_present",
                       "adapters.py:SingleAdapter._make_kmer_finder, <class>._kmer_finder/match_to", "_align.pyx:Aligner.locate (as C01)"],
         "bounds": {"quick": {"(m, n, rates, profile)": QUICK_SHAPES, "profiles": "full = {no wildcards, adapter wildcards, read wildcards} x overlaps {1,2,3,m}; lean = no wildcards, overlaps {1,m}", "adapter alphabet": "ACGT (IUPAC subset ACGTNRX when adapter wildcards are on)", "read alphabet": READ_ALPHABET,
@@ -64,6 +64,12 @@ def jobs(tier, seed):
                         for mo in mos:
                             cfg = dict(rate=rate, adapter_wildcards=aw, read_wildcards=rw, indels=indels, min_overlap=mo)
                             out.append({"name": "%s/m=%d/n=%d/%s,o=%d" % (kind, m, n, AC.cfg_name(cfg), mo), "kind": kind, "m": m, "n": n, "cfg": cfg})
+    # adapters reach worker processes by pickling (spawn/forkserver): the pickled copy's prefilter must give the same
+    # verdict as the original for every read
+    for kind in ("back", "front", "anywhere"):
+        for aw, rw in ((False, False), (True, False), (False, True), (True, True)):
+            cfg = dict(rate=0.2, adapter_wildcards=aw, read_wildcards=rw, indels=True, min_overlap=3)
+            out.append({"name": "pickled-copy/%s/%s" % (kind, AC.cfg_name(cfg)), "fn": "reduce", "kind": kind, "cfg": cfg, "n": 6})
     return out
 
 
@@ -110,8 +116,32 @@ def path(J, ctx, kind, m, n, cfg):
     J.sample = {"class": AC.CLASSES[kind], "m": m, "n": n, "cfg": AC.cfg_name(cfg), "min_overlap": cfg["min_overlap"], "symbolic": ["adapter chars", "read chars"]}
 
 
+def path_reduce(J, ctx, kind, n, cfg):
+    """KmerFinder.__reduce__ (from source): the finder rebuilt from the pickling recipe answers like the original."""
+    it = new_interp(ctx)
+    adapter = "ACGNTR" if cfg["adapter_wildcards"] else "ACGTTC"
+    ad = AC.build_adapter(it, kind, adapter, cfg, mock_prefilter=False)
+    kf = ad.kmer_finder
+    red = it.call_value(it.getattr(kf, "__reduce__"), [], {})
+    cls, args = red[0], red[1]
+    copy = it.call_value(cls, list(args), {})
+    read = sym_str(ctx, "r", n, alphabet=READ_ALPHABET)
+
+    def mk(m):
+        return {"kind": kind, "cfg": cfg, "adapter": adapter, "read": model_str(m, read), "pickled": True}
+    a = it.call_value(it.getattr(kf, "kmers_present"), [read], {})
+    b = it.call_value(it.getattr(copy, "kmers_present"), [read], {})
+    J.safety(ctx, mk)
+    J.claim(ctx, V.zb(a) == V.zb(b), "the prefilter of a pickled copy of the adapter gives a different verdict than the original", mk)
+    if J.witness(ctx, z3.Not(V.zb(a)) if a is not True else None):
+        J.nontrivial = 1
+    J.sample = {"fn": "KmerFinder.__reduce__", "class": AC.CLASSES[kind], "cfg": AC.cfg_name(cfg)}
+
+
 def run_job(job):
     J = Job(job)
+    if job.get("fn") == "reduce":
+        return run_paths(J, lambda ctx: path_reduce(J, ctx, job["kind"], job["n"], job["cfg"]), max_paths=50)
     r = run_paths(J, lambda ctx: path(J, ctx, job["kind"], job["m"], job["n"], job["cfg"]), max_paths=400)
     if r["vacuity"] is None:
         r["vacuity"] = bool(J.extra.get("paths_match") or J.extra.get("paths_none") or J.extra.get("mock_finder_paths"))
@@ -181,6 +211,12 @@ def concrete_bounds_check(kind, cfg, ad, rd):
 
 def replay(cex):
     kind, cfg, ad, rd = cex["kind"], cex["cfg"], cex["adapter"], cex["read"]
+    if cex.get("pickled"):
+        import pickle
+        real = AC.real_adapter(kind, cfg, ad)
+        copy = pickle.loads(pickle.dumps(real))
+        a, b = real.kmer_finder.kmers_present(rd), copy.kmer_finder.kmers_present(rd)
+        return a != b, "%s(%r, %s): kmers_present(%r) original %r, pickled copy %r" % (AC.CLASSES[kind], ad, AC.cfg_name(cfg), rd, a, b)
     if cex.get("what", "").startswith("bounds"):
         oob = concrete_bounds_check(kind, cfg, ad, rd)
         real = AC.real_adapter(kind, cfg, ad)
